@@ -101,7 +101,9 @@ def h_tridonic_tx(ctx, bits, twice, query):
         w = out["writes"]
         ctx.prove(len(w) == 1, "%d reports written for one command" % len(w), key="tridonic/tx-count")
         if w:
-            ctx.prove(_eq_bytes(w[0], WF.tridonic_tx_report(seq0, x, bits, twice)),
+            s1 = w[0][1]
+            ctx.prove(E.between(1, s1, 255), "sequence number outside 1..255", key="tridonic/tx-seq")
+            ctx.prove(_eq_bytes(w[0], WF.tridonic_tx_report(s1, x, bits, twice)),
                       "report differs from the Tridonic DALI USB send format", key="tridonic/tx-bytes")
         ctx.observe("report", list(w[0])[:9] if w else None)
         return "ok"
@@ -579,11 +581,12 @@ def h_tridonic_tx2(ctx, bits1, bits2, twice2):
         w = out["writes"]
         ctx.prove(len(w) == 2, "%d reports written for two commands" % len(w), key="tridonic/tx2-count")
         if len(w) == 2:
-            ctx.prove(_eq_bytes(w[0], WF.tridonic_tx_report(seq0, x1, bits1, False)),
+            s1 = w[0][1]
+            ctx.prove(_eq_bytes(w[0], WF.tridonic_tx_report(s1, x1, bits1, False)),
                       "first report differs from the send format", key="tridonic/tx2-first")
             s2 = w[1][1]
-            ctx.prove(E.and_(E.between(1, s2, 255), E.ne(s2, seq0)), "second sequence number out of range or repeated",
-                      key="tridonic/tx2-seq")
+            ctx.prove(E.and_(E.between(1, s1, 255), E.between(1, s2, 255), E.ne(s2, s1)),
+                      "sequence numbers out of range or repeated immediately", key="tridonic/tx2-seq")
             ctx.prove(_eq_bytes(w[1], WF.tridonic_tx_report(s2, x2, bits2, twice2)),
                       "second report (after a %d-bit command) differs from the send format" % bits1,
                       key="tridonic/tx2-second")
